@@ -60,6 +60,9 @@ def shards(tier, seed):
 NAME_CHARS = "ABCDEFGHIJKLMNOPQRSTUVWXYZ"
 
 
+_SHARED_OP4 = []
+
+
 def _name(r, maxlen=8):
     n = int(r.integers(1, maxlen + 1))
     rest = NAME_CHARS + "0123456789_"
@@ -367,7 +370,16 @@ def _op4_file(sh, logical, names, forms, enc, case, fname="c11.op4", heavy=False
     lists = {}
     for rm in modes:
         sh.count("mon:op4-read")
-        res = wrap(lambda: op4.load(fname, into="list", sparse=rm), "op4-load")
+        if case["k"] % 3 == 1:
+            # ONE reader object for the whole shard: it has just read another encoding
+            # (other byte order / key width / ASCII exponent letter / layout); nothing it
+            # detected there may stick
+            if not _SHARED_OP4:
+                _SHARED_OP4.append(op4.OP4())
+            sh.count("cell:op4-shared-reader-object")
+            res = wrap(lambda: _SHARED_OP4[0].listload(fname, sparse=rm), "op4-load")
+        else:
+            res = wrap(lambda: op4.load(fname, into="list", sparse=rm), "op4-load")
         if res is None:
             continue
         lists[str(rm)] = res
